@@ -31,7 +31,7 @@ def opBf2Convert : List String → String
 
 def opBf2Import : List String → String
   | [enf, t] => match parseStr t with
-    | some s => (match bf2Import s (enf == "1") with
+    | some s => (match Entry.importBf2 s (enf == "1") with
       | .ok (cm, comps) => "ok " ++ showComments cm ++ " " ++ showComps comps
       | .error e => "err " ++ e.name)
     | none => "bad-op"
@@ -39,7 +39,7 @@ def opBf2Import : List String → String
 
 def opPfid2 : List String → String
   | [f] => match parseHex f with
-    | some b => (match pfid2FilterToStr b with
+    | some b => (match Entry.formatFilter b with
       | .ok s => "ok " ++ showStr s
       | .error e => "err " ++ e.name)
     | none => "bad-op"
